@@ -403,3 +403,33 @@ pub assume_specification<T, U, D: FnOnce() -> U, F: FnOnce(T) -> U>[ Option::<T>
         o is None ==> d.ensures((), r),
         o is Some ==> f.ensures((o->0,), r),
 ;
+
+// ---- Display / Formatter model (C04): the bytes a Formatter has received so far ----------------------
+pub uninterp spec fn fmt_out(f: std::fmt::Formatter) -> Seq<u8>;
+/// bytes of an ASCII string
+pub open spec fn str_bytes(s: &str) -> Seq<u8> { Seq::new(s@.len(), |i: int| s@[i] as u8) }
+
+/// ASSUMED std contracts: write_str / write_char append exactly the given text
+pub assume_specification<'a>[ std::fmt::Formatter::<'a>::write_str ](f: &mut std::fmt::Formatter<'a>, s: &str) -> (r: std::fmt::Result)
+    ensures r is Ok ==> fmt_out(*final(f)) == fmt_out(*old(f)) + str_bytes(s),
+;
+pub assume_specification<'a>[ <std::fmt::Formatter<'a> as std::fmt::Write>::write_char ](f: &mut std::fmt::Formatter<'a>, c: char) -> (r: std::fmt::Result)
+    ensures r is Ok && (c as u32) < 128 ==> fmt_out(*final(f)) == fmt_out(*old(f)).push(c as u8),
+;
+/// ASSUMED (Kani langid_leaf leaf_deref_is_text): a TinyAsciiStr derefs to the &str holding its text
+pub assume_specification<const N: usize>[ <tinystr::TinyAsciiStr<N> as std::ops::Deref>::deref ](t: &tinystr::TinyAsciiStr<N>) -> (r: &str)
+    ensures str_bytes(r) == text(*t),
+;
+pub open spec fn dash() -> Seq<u8> { seq![0x2du8] }
+/// "-a-b-c" for [a, b, c]
+pub open spec fn dash_join(s: Seq<Seq<u8>>) -> Seq<u8>
+    decreases s.len()
+{
+    if s.len() == 0 { Seq::empty() } else { dash_join(s.drop_last()) + dash() + s.last() }
+}
+pub open spec fn opt_dash(o: Option<Seq<u8>>) -> Seq<u8> { match o { Some(s) => dash() + s, None => Seq::empty() } }
+/// C04: the canonical serialisation of a language identifier
+pub open spec fn lang_text(o: Option<Seq<u8>>) -> Seq<u8> { match o { Some(s) => s, None => und() } }
+pub open spec fn lid_ser(v: LidView) -> Seq<u8> {
+    lang_text(v.lang) + opt_dash(v.script) + opt_dash(v.region) + dash_join(v.variants)
+}
